@@ -514,4 +514,36 @@ def streamRead (fallback : Bool) (file : Bytes) (pos : Nat) (len : Option Int) :
     let skipped := scanEndstream (file.length + 1) (file.drop (start + objlen))
     .ok (if fallback then data ++ skipped else data, start + objlen + skipped.length)
 
+/-! ## `int_value(dic["Length"])`: direct, indirect, missing (round 6) -/
+
+/-- The value of the `Length` key as the parser sees it: an integer, an indirect reference, or any
+other object (`null`, a name, a string, …). -/
+inductive LenObj
+  | int (n : Int)
+  | ref (id : Nat)
+  | other
+  deriving DecidableEq, Repr
+
+/-- `resolve1` on a `Length` value.  `objs` is what `doc.getobj` returns (first entry of an id wins;
+no entry = `PDFObjectNotFound` -> `default` = None).  An id met a second time makes `resolve1`
+return `default` too, so following a reference may forget its id: the table shrinks, the loop ends. -/
+def resolveLen : Nat → List (Nat × LenObj) → LenObj → LenObj
+  | 0, _, _ => .other
+  | _ + 1, _, .int n => .int n
+  | _ + 1, _, .other => .other
+  | fuel + 1, objs, .ref id =>
+    match objs.find? (fun p => p.1 == id) with
+    | none => .other
+    | some p => resolveLen fuel (objs.filter (fun q => q.1 != id)) p.2
+
+/-- `int_value(dic["Length"])` (non-strict): `none` = the key is missing (KeyError, `objlen` stays 0
+in `do_keyword`), a non-integer gives 0. -/
+def lengthValue (objs : List (Nat × LenObj)) (v : Option LenObj) : Option Int :=
+  match v with
+  | none => none
+  | some x =>
+    match resolveLen (objs.length + 1) objs x with
+    | .int n => some n
+    | _ => some 0
+
 end PdfVerif.Filters
